@@ -18,9 +18,11 @@
 (* unsupported protocol version", a frame of a version in B without the       *)
 (* USE_BETA flag with "Beta version of the protocol used ..., but USE_BETA    *)
 (* flag is unset".  The driver sets USE_BETA on every frame iff allow_beta.   *)
-(* One action = one pass through the loop of _try_connect: one connection     *)
-(* attempt (the version is rejected or accepted on the very first frame) and  *)
-(* the exception handler that follows.                                        *)
+(* One pass through the loop of _try_connect is two steps by two threads: the *)
+(* event loop answers the first frame of the new connection (Reply: publishes *)
+(* the outcome, then sets connected_event), the client thread waiting in      *)
+(* Connection.factory() wakes up, reads what was published and runs the       *)
+(* exception handler (Observe).                                               *)
 (* `start` with explicit = FALSE stands for Cluster.protocol_version as it is *)
 (* when the (re)connection begins: the class default DSE_V2, or whatever an   *)
 (* earlier negotiation / the application left there.                          *)
@@ -53,9 +55,11 @@ VARIABLES start, explicit, allowBeta, S, B,    \* the configuration (never chang
           ver,                                 \* Cluster.protocol_version
           log,                                 \* versions tried, in order (first frame of every connection attempt)
           replies,                             \* what the server said to each of them
-          status                               \* "trying" | "connected" | "error"
+          status,                              \* "trying" | "connected" | "error"
+          conn                                 \* what the event loop published on the connection being opened:
+                                               \* "none" (nothing yet) | "ok" | "unsupported" | "beta"
 cfgVars == <<start, explicit, allowBeta, S, B>>
-vars == <<start, explicit, allowBeta, S, B, ver, log, replies, status>>
+vars == <<start, explicit, allowBeta, S, B, ver, log, replies, status, conn>>
 
 Accepts(v) == v \in S /\ (v \in B => allowBeta)
 ReplyTo(v) == IF Accepts(v) THEN "ok" ELSE IF v \notin S THEN "unsupported" ELSE "beta"
@@ -70,26 +74,43 @@ Init == /\ start \in Supported
         /\ log = <<>>
         /\ replies = <<>>
         /\ status = "trying"
+        /\ conn = "none"
 
-\* connection_factory(...) at Cluster.protocol_version, then `break` / protocol_downgrade / raise
-Attempt ==
-    /\ status = "trying"
+\* Event-loop thread, first frame of a new connection at Cluster.protocol_version (Connection.process_msg /
+\* the handshake callbacks): it PUBLISHES the outcome - last_error, is_unsupported_proto_version - and only then
+\* sets connected_event (inside defunct() for an error).  `conn` is what is published when the event is set.
+Reply ==
+    /\ status = "trying" /\ conn = "none"
     /\ log' = Append(log, ver)
     /\ replies' = Append(replies, ReplyTo(ver))
-    /\ IF Accepts(ver)
+    /\ conn' = ReplyTo(ver)
+    /\ UNCHANGED <<cfgVars, ver, status>>
+
+\* Client thread blocked in Connection.factory() on connected_event: it may run at ANY instant after the event is
+\* set - in particular before the event-loop thread executes its next statement - and decides on what it reads
+\* then: ProtocolVersionUnsupported (-> protocol_downgrade), the ProtocolException itself (beta error ->
+\* protocol_downgrade unless explicit; anything else is re-raised), or the ready connection (`break`).
+\* The harness runs this step both at the instant of connected_event.set() and after the callback has returned.
+Observe ==
+    /\ status = "trying" /\ conn # "none"
+    /\ conn' = "none"
+    /\ IF conn = "ok"
        THEN status' = "connected" /\ ver' = ver
        ELSE IF explicit
             THEN status' = "error" /\ ver' = ver          \* protocol_downgrade raises / ProtocolException re-raised
             ELSE IF Lower(ver) < MinSupported
                  THEN status' = "error" /\ ver' = ver     \* "Cannot downgrade protocol version below minimum supported"
                  ELSE status' = "trying" /\ ver' = Lower(ver)
-    /\ UNCHANGED cfgVars
+    /\ UNCHANGED <<cfgVars, log, replies>>
 
-Next == Attempt
+Next == Reply \/ Observe
 Spec == Init /\ [][Next]_vars /\ WF_vars(Next)
 
 -----------------------------------------------------------------------------
 TypeOK == /\ status \in {"trying", "connected", "error"}
+          /\ conn \in {"none", "ok", "unsupported", "beta"}
+          /\ (status # "trying" => conn = "none")
+          /\ (conn # "none" => Len(replies) > 0 /\ conn = replies[Len(replies)])   \* what is read is what was published
           /\ ver \in Supported
           /\ Len(log) = Len(replies)
 
